@@ -110,6 +110,12 @@ func run(c *fw.Ctx) error {
 		fam := func(n int, faults string) string {
 			return fmt.Sprintf("SPECIFICATION SpecFam\nCONSTANTS Profile = \"defer\" Pinned = TRUE FamN = %d FamFaults = %s\n%s", n, faults, invs)
 		}
+		// pinned witnesses of the known findings of the sequential core
+		b0, err := gorun.Generate(c, "SPECIFICATION SpecWit\nCONSTANTS Profile = \"core\" Pinned = TRUE FamN = 1 FamFaults = {}\n"+invs, false, 1, 0, 0)
+		if err != nil {
+			return err
+		}
+		behs = append(behs, b0...)
 		b1, err := gorun.Generate(c, fam(2, all7), false, 1, 0, 0)
 		if err != nil {
 			return err
@@ -142,7 +148,7 @@ func sessions(c *fw.Ctx, behs []gocore.Beh) error {
 	var sel []int
 	for i := range behs {
 		m := behs[i].Prog.Main
-		if len(m) == 1 && m[0].K == "print" && behs[i].Prog.Funcs["h"] != nil {
+		if len(m) == 1 && m[0].K == "print" && behs[i].Prog.Funcs["h"] != nil && behs[i].Prog.Name == "" {
 			sel = append(sel, i)
 		}
 	}
